@@ -49,6 +49,10 @@ CHECKS = {
     technique='symbolic execution of the real Form.threshold on a symbolic filing status per threshold table (z3: assertion unreachable, keys unambiguous); finite-domain catalogue facts from the real constructors and the real list-form-inputs command',
     text='For every form instance of every year: instantiable for each allowed instance, declares the catalogue year, unique name, metadata present, input and line names duplicate-free / dot-free / lower-case, and the real list-form-inputs output parses back (configparser) naming exactly the declared inputs. Every status-keyed threshold table is looked up through the real Form.threshold with a symbolic status: no status reaches the assertion and no status matches two keys. (Q1: catalogue facts are finite-domain.)',
     design='4 C17', note=TB),
+ 'C08': dict(
+    technique='path-exhaustive symbolic summaries of the real line definitions (incl. the real Form.threshold on a symbolic filing status), each path restricted to a status by an SMT feasibility query; constants of the feasible paths compared with an independent table of published amounts',
+    text='For each of 28 statutory entries (standard deductions, capital-gain breakpoints, AMT exemption/phase-out/28% breakpoint, QBI threshold, Additional Medicare thresholds, HSA limits, SALT cap, Form 1116 limit, saver credit limits, EIC limits, CTC/ODC/ACTC amounts and phase-outs, 2021 ARPA and recovery-rebate amounts, Schedule B threshold, NC rate / standard deduction / child deduction table) and every line in which it shows, the line summary is restricted to each of the 5 filing statuses (z3 feasibility per path); the numeric constants of the feasible paths must contain the published amount for that year and status and none of the other years / statuses amounts (stale or swapped constants). 315 (year, entry, line, status) obligations; violations are confirmed on the uninstrumented source.',
+    design='4 C08', note=TB + '; oracle/statutory.json transcribed from Rev. Proc. 2020-45 / 2021-45 / 2022-38, form instructions and NC D-401 (it agreed with the shipped code on all but the 3 defects that were fixed)'),
  'C07': dict(
     technique='bounded symbolic execution of the real figure_tax on a symbolic real income (proxy objects through the real bytecode, z3 decides path feasibility) + per-path SMT equivalence with the statutory rate schedule',
     text='Every path of the real figure_tax/figure_tax_table/figure_tax_worksheet (one per table row and worksheet row, for each year and each of the 5 statuses) is enumerated by the symbolic executor; for each, z3 proves value(x) == schedule(x) for every real x on that path (unsat of the negation), that no feasible x falls through, and monotonicity across adjacent pieces. Holds for all real x in [0,1e12]; float rounding of the worksheet kernel is bounded by an NRA lemma under the IEEE standard model. Witnesses are replayed on the uninstrumented code before being reported.',
